@@ -10,7 +10,7 @@ rsync -a --exclude .git --exclude work --exclude replays --exclude evidence --ex
 sed -i "s#/repo/simple-dns#$out/repo/simple-dns#; s#/repo/simple-mdns#$out/repo/simple-mdns#" "$out/verif/harness/Cargo.toml"
 : > "$out/result.txt"
 for seed in "$@"; do
-  for id in C01 C02 C03 C04 C05 C06 C07 C08 C09 C10 C11 C12 C13 C14 C15 C16 C17 C18 C19 C20; do
+  for id in ${IDS:-C01 C02 C03 C04 C05 C06 C07 C08 C09 C10 C11 C12 C13 C14 C15 C16 C17 C18 C19 C20}; do
     VERIF_SEED=$seed "$out/verif/check" "$id" --tier "${TIER:-quick}" --seed "$seed" > "$out/logs/$id-$seed.log" 2>&1; rc=$?
     echo "seed=$seed $id rc=$rc $(tail -1 "$out/logs/$id-$seed.log" | cut -c1-120)" >> "$out/result.txt"
   done
